@@ -733,8 +733,23 @@ class Datatype(Item):
         theory.thy.add_type_sig(self.name, len(self.args))
 
         try:
+            T = TConst(self.name, *(TVar(arg) for arg in self.args))
             for constr in data['constrs']:
                 constr_type = parser.parse_type(constr['type'])
+
+                # The constructor builds the datatype, and has one name for
+                # each of its arguments
+                argsT, resT = constr_type.strip_type()
+                if resT != T:
+                    raise ItemException("Datatype %s: constructor %s does not have result type %s" % (
+                        self.name, constr['name'], T))
+                if len(constr['args']) != len(argsT):
+                    raise ItemException("Datatype %s: constructor %s has %d arguments but %d argument names" % (
+                        self.name, constr['name'], len(argsT), len(constr['args'])))
+                if len(set(constr['args'])) != len(constr['args']):
+                    raise ItemException("Datatype %s: argument names of constructor %s must be distinct" % (
+                        self.name, constr['name']))
+
                 self.constrs.append({
                     'name': constr['name'],
                     'type': constr_type,
@@ -789,7 +804,12 @@ class Datatype(Item):
         # Add the inductive theorem.
         tvars = [TVar(targ) for targ in self.args]
         T = TConst(self.name, *tvars)
-        var_P = Var("P", TFun(T, BoolType))
+        # The predicate variable must differ from the arguments of the constructors
+        arg_names = set(nm for constr in self.constrs for nm in constr['args'])
+        P_name = "P"
+        while P_name in arg_names:
+            P_name += "1"
+        var_P = Var(P_name, TFun(T, BoolType))
         ind_assums = []
         for constr in self.constrs:
             A = Const(constr['name'], constr['type'])
